@@ -497,6 +497,33 @@ theorem astar_speed_search_terminates (c : Config α) (h : c.EdgeLocal)
     ∀ sched r, c.runVertex source (some t) sched = .ok r → r.iterations ≤ c.nV :=
   config_astar_speed_terminates c h M hsrc hV
 
+/-- TERMINATION, general A\* (any weight factor, any estimate — inconsistent, above 1 — so vertices may
+be re-opened; any traversal, access, cost, frontier and termination model): the search still ends by
+itself, because every charged cost is strictly positive (C07).  `W = walks c.inst source c.nV` is the
+finite list of walks of fewer than `|V|` edges from the origin along the adjacency lists; every label
+the loop writes is the replayed cost of a vertex-simple one of them and a label only improves, so:
+(1) some schedule of at most `|W| + 2` pops ends the way the code ends; (2) every accepted, unfinished
+schedule has at most `|W| + 1` pops and extends to one of at most `|W| + 2` pops that ends; (3) a
+returned result performed at most `|W| + 1` expansions; (4) `|W| ≤ Σ_{k<|V|} D^k` for a degree bound
+`D`.  This bound is exponential in `|V|`: it proves termination, it does not bound the work in any
+useful way — for such searches the configured iteration limit (`iterations_le_limit`) is the only
+practical bound, and a search under the Dijkstra discipline needs at most `|V|` expansions
+(`dijkstra_search_terminates`). -/
+theorem astar_search_terminates (c : Config α) (hadj : c.AdjConsistent)
+    {source : Nat} (hsrc : source < c.nV) (hV : c.VerticesBelow c.nV) (target : Option Nat) :
+    (∃ sched, sched.length ≤ (walks c.inst source c.nV).length + 2 ∧
+      Ended (c.runVertex source target sched)) ∧
+    (∀ pre, c.runVertex source target pre = .error .scheduleExhausted →
+      pre.length ≤ (walks c.inst source c.nV).length + 1 ∧
+      ∃ ext, (pre ++ ext).length ≤ (walks c.inst source c.nV).length + 2 ∧
+        Ended (c.runVertex source target (pre ++ ext))) ∧
+    (∀ sched r, c.runVertex source target sched = .ok r →
+      r.iterations ≤ (walks c.inst source c.nV).length + 1) ∧
+    ∀ D, (∀ v, (c.inst.incident v).length ≤ D) →
+      (walks c.inst source c.nV).length ≤ ((List.range c.nV).map (fun k => D ^ k)).sum := by
+  obtain ⟨h1, h2, h3⟩ := config_terminates_general c hadj hsrc hV target
+  exact ⟨h1, h2, h3, fun D hD => walks_length_le hD source c.nV⟩
+
 end
 
 /-! Non-vacuity: `exC` (five vertices, Dijkstra, a cycle, self loops, an isolated vertex) meets the
@@ -515,6 +542,12 @@ example : (∃ sched, sched.length ≤ 6 ∧ Ended (exC.runVertex 0 (some 3) sch
 
 example : ConfigUniform.Example.errOf (exC.runVertex 0 (some 3) [0, 1]) = some .scheduleExhausted := by
   decide +kernel
+
+/-- the general theorem on `exA` (weight factor one, a non-zero estimate) -/
+example : ∃ sched, Ended (exA.runVertex 0 (some 3) sched) :=
+  let ⟨⟨sched, _, h⟩, _⟩ := astar_search_terminates exA exA_edgeLocal.adj (source := 0) (by decide)
+    (by decide) (some 3)
+  ⟨sched, h⟩
 
 end
 
